@@ -969,24 +969,21 @@ class CachedInput:
                 self.__buffer = self.__buffer[size:]
                 return retval
             size = size - b_size
-            self.__todo -= size
-            retval = self.__buffer + self.__file.read(size)
+            data = self.__file.read(size)
+            self.__todo -= len(data)
+            retval = self.__buffer + data
             self.__buffer = b''
             return retval
 
         size = min(self.__todo, size)
-        self.__todo -= size
-        return self.__file.read(size)
+        data = self.__file.read(size)
+        self.__todo -= len(data)
+        return data
 
     def readline(self, size=-1):  # noqa: C901
         """Compatible file read which works with internal buffer."""
         if size < 0:
             size = self.block_size
-
-        if not self.__buffer:
-            size = min(self.__todo, size)
-            self.__todo -= size
-            self.__buffer = self.__file.read(size)
 
         line = b''
         l_size = 0
@@ -996,6 +993,10 @@ class CachedInput:
 
         while l_size < size:
             max_size = size-l_size
+            if line[-1:] == b'\r' and self.__buffer[:1] == b'\n':
+                # CRLF divided by the end of the previous block
+                self.__buffer = self.__buffer[1:]
+                return line + b'\n'
             pos = self.__buffer.find(b'\r\n', 0, max_size)
             if pos >= 0:
                 line += self.__buffer[:pos + 2]
@@ -1016,9 +1017,11 @@ class CachedInput:
             l_size = len(line)
 
             if l_size < size:
-                n_size = min(self.__todo, max_size)
-                self.__todo -= n_size
+                n_size = min(self.__todo, size-l_size)
+                if not n_size:      # all declared bytes were read
+                    break
                 self.__buffer = self.__file.read(n_size)
+                self.__todo -= len(self.__buffer)
 
         # no end-of-line found
         return line
